@@ -50,6 +50,7 @@ class Aggregator:
                 self.c['fault:clock_jumps_injected'] += s.get('clock_jumps', 0)
                 self.c['probe:clock_reads_by_library'] += s.get('clock_reads', 0)
                 self.c['simulated_timeouts_fired'] += s.get('timeouts_fired', 0)
+                self.c['fairness_fallback_switches'] += s.get('fair_switches', 0)
                 if s.get('killed'):
                     self.c['fault:thread_call_killed_midway'] += 1
                 if s['history_dependence']:
